@@ -8,6 +8,9 @@ def run(chk):
     ex = explore("wfc")
     handler_preamble(chk, ex, ["operation.wait_for_condition.WaitForConditionOperationExecutor.check_result_status", "operation.wait_for_condition.WaitForConditionOperationExecutor.execute"])
     hobl.c13_wfc(chk, ex)
+    hobl.c12_step(chk, ex)
+    from . import strategies
+    strategies.strategy_contract(chk, "C13", "wait")
     hobl.c12_step.__name__  # pending handled below
     hobl_pending(chk, ex)
 
